@@ -136,8 +136,12 @@ impl<'a> ExecutionEngine<'a> {
     pub fn execute(&mut self, line: String, config: &ExecutionConfig) -> ExecutionResult<ExecutionOutput> {
         match self.statement {
             Statement::Select(select_statement) => {
+                if self.reached_limit() {
+                    return Ok(ExecutionOutput::empty().with_reached_limit());
+                }
+
                 let output = self.execute_select(&select_statement, line)?;
-                let output = self.update_limit(select_statement.limit, output);
+                let output = self.update_select_limit(select_statement.limit, output);
                 Ok(output)
             }
             Statement::Aggregate(aggregate_statement) => {
@@ -324,6 +328,34 @@ impl<'a> ExecutionEngine<'a> {
         }
 
         output
+    }
+
+    /// A select statement outputs exactly the first `limit` rows: the rows of a line beyond the limit are cut off,
+    /// and every row counts (also a row with only NULL columns).
+    fn update_select_limit(&mut self, limit: Option<usize>, mut output: ExecutionOutput) -> ExecutionOutput {
+        if let Some(limit) = limit {
+            if let Some(row) = output.result_row.as_mut() {
+                row.data.truncate(limit - self.num_output_rows.min(limit));
+            }
+        }
+
+        if let Some(row) = output.result_row.as_ref() {
+            self.num_output_rows += row.data.len();
+        }
+
+        if self.reached_limit() {
+            output = output.with_reached_limit();
+        }
+
+        output
+    }
+
+    /// Has a select statement already produced all the rows its LIMIT allows (immediately so for LIMIT 0)?
+    pub fn reached_limit(&self) -> bool {
+        match self.statement {
+            Statement::Select(select_statement) => select_statement.limit.map(|limit| self.num_output_rows >= limit).unwrap_or(false),
+            _ => false
+        }
     }
 
     pub fn execute_joined_table(&mut self, running: Arc<AtomicBool>) -> ExecutionResult<()> {
